@@ -615,6 +615,7 @@ class Net:
         world_reset()
         self.layout = layout
         self.log = []          # (tag, record) in order of occurrence
+        self.frame_times = []  # (virtual ms, frame record) for the direct check's bookkeeping
         self.lans, self.nodes = [], []
         self.router = IPRouter()
         for li, (sub, plen) in enumerate(layout['lans']):
@@ -652,11 +653,13 @@ class Net:
     def _frame(self, li, pdu):
         s, d = pdu.pduSource, pdu.pduDestination
         self.log.append((None, [2, li, ip_int(s[0]), s[1], ip_int(d[0]), d[1]] + frame_canon(pdu.pduData)))
+        self.frame_times.append((ms(NOW[0]), self.log[-1][1]))
 
     def step(self, T_ms, ev):
         """advance the virtual clock to T, perform the event, run to quiescence; returns the records of this step"""
         from bacpypes.pdu import Address, PDU, LocalBroadcast
         del self.log[:]
+        del self.frame_times[:]
         run_until(T_ms / 1000.0)
         k = ev[0]
         if k == 'bcast':
@@ -704,20 +707,31 @@ class Net:
         return out
 
 
-def canon_recs(recs):
+def canon_recs_full(recs):
     out = [len(recs)]
     for r in sorted(recs):
         out += [len(r)] + r
     return out
 
 
-def run_net(layout, script):
+def digest(xs):
+    h = 7
+    for x in xs:
+        h = (h * 1000003 + x + 12345) % 2305843009213693951
+    return h
+
+
+def canon_recs(recs):
+    return [len(recs), digest(canon_recs_full(recs))]
+
+
+def run_net(layout, script, full=False):
     from pyerr import exc_code
     try:
         net = Net(layout)
         out = [0]
         for T, ev in script:
-            out += canon_recs(net.step(T, ev))
+            out += (canon_recs_full if full else canon_recs)(net.step(T, ev))
         return out + net.final()
     except Watchdog:
         return [1, 17]
@@ -768,10 +782,10 @@ def net_case(layout, script, tag='net'):
 TTLS = [1, 2, 3, 5, 7, 10, 30, 60, 120, 300]
 
 
-def gen_layout(rng, wf=True, style=None, max_sub=5):
+def gen_layout(rng, wf=True, style=None, max_sub=5, partial=False):
     """wf: <=1 BBMD per subnet, full tables, foreign devices only on subnets without a BBMD.
     style: 'two-hop' (/32 entries), 'one-hop' (peer's subnet mask), 'mixed' (per peer), 'partial' (random subsets)."""
-    style = style or rng.choice(['two-hop', 'one-hop', 'mixed'] if wf else ['two-hop', 'one-hop', 'mixed', 'partial', 'partial'])
+    style = 'partial' if partial else style or rng.choice(['two-hop', 'one-hop', 'mixed'] if wf else ['two-hop', 'one-hop', 'mixed', 'partial', 'partial'])
     nsub = rng.randrange(1, max_sub + 1)
     lans, nodes = [], []
     plens = []
@@ -916,7 +930,26 @@ def gen_script(rng, layout, n_events):
             script.append((t, ('inject', rng.choice(probes), rng.choice([None, (tgt['ip'], PORT)]), m)))
         else:
             script.append((t, ('none',)))
-    return script
+    return split_gaps(script, T)
+
+
+def split_gaps(script, T, chunk=20000):
+    """observation lists are compared per script item: keep them short by cutting long waits into
+    items of <= ~20 s (devices with a 1 s TTL renew every second)"""
+    out, prev = [], 0
+    for t, ev in script:
+        while t - prev > chunk + 1000:
+            T.t = prev
+            prev = T.after(chunk - 1000)
+            if prev >= t:
+                break
+            out.append((prev, ('none',)))
+        out.append((t, ev))
+        prev = t
+    T.t = prev
+    # instants must stay strictly increasing
+    assert all(a[0] < b[0] for a, b in zip(out, out[1:])), out
+    return out
 
 
 def net_cases(rng, tier):
@@ -931,3 +964,442 @@ def net_cases(rng, tier):
         # an unregistered foreign device that receives a Result raises (TypeError): keep those cases, they are compared by class
         out.append(net_case(layout, script, 'net-wf' if wf else 'net-any'))
     return out
+
+
+# ------------------------------------------------------------------ FDT level: histories on one BBMD
+def run_hist(state, events):
+    rig = NodeRig('bbmd', upper=state[3])
+    bip = rig.bip
+    set_bbmd_state(bip, state[0], state[1], state[2])
+    out = [0]
+    for ev in events:
+        del rig.log[:]
+        if ev[0] == 'conf':
+            rig.inject(ev[1], ev[2], ev[3])
+        elif ev[0] == 'ind':
+            bip.indication(np_pdu(ev[2], ev[1]))
+        else:
+            bip.process_task()
+        fdt = [len(bip.bbmdFDT)]
+        for e in bip.bbmdFDT:
+            ip, port = addr_ints(e.fdAddress)
+            fdt += [ip, port, e.fdTTL, e.fdRemain]
+        out += fdt + rig.actions()
+    return out
+
+
+def coq_bev(ev):
+    if ev[0] == 'conf':
+        return '(BConf %s %s %s)' % (coq_addr(ev[1]), coq_dest(ev[2]), coq_msg(ev[3]))
+    if ev[0] == 'ind':
+        return '(BInd %s %d)' % (coq_dest(ev[1]), ev[2])
+    return 'BTick'
+
+
+def hist_case(state, events, tag='fdt-history'):
+    exp = run_hist(state, events)
+    return Case(tag, 'canon_ok (canon_hist %s [%s])' % (coq_bbmd(*state), ';'.join(coq_bev(e) for e in events)), exp,
+                key=('hist', repr(state), repr(events)), nontrivial=len(events) > 0,
+                desc={'layer': 'fdt', 'state': state, 'events': events})
+
+
+def gen_hist(rng, n):
+    me = A('10.0.1.2')
+    devs = [A('10.0.9.%d' % k) for k in range(40, 45)] + [A('10.0.9.40', 47809)]
+    bdt = rng.choice([[], [me + (M32,)], [me + (M32,), A('10.0.2.2') + (M24,)]])
+    st = (me, bdt, [], True)
+    evs = []
+    for _ in range(n):
+        r = rng.random()
+        if r < 0.5:
+            evs.append(('tick',))
+        elif r < 0.75:
+            evs.append(('conf', rng.choice(devs), me, (5, rng.choice([0, 1, 2, 3, 5, 10, 30, 300, 65535]))))
+        elif r < 0.83:
+            evs.append(('conf', A('10.0.1.90'), me, (8,) + rng.choice(devs)))
+        elif r < 0.9:
+            evs.append(('conf', A('10.0.1.90'), me, (6,)))
+        elif r < 0.95:
+            evs.append(('conf', rng.choice(devs), me, (9, payload_id(b'\x05'))))
+        else:
+            evs.append(('ind', None, payload_id(b'\x06')))
+    return st, evs
+
+
+def hist_cases(rng, tier):
+    out = []
+    for _ in range(400 if tier == 'thorough' else 80):
+        st, evs = gen_hist(rng, rng.choice([5, 20, 60]))
+        out.append(hist_case(st, evs))
+    # the served window, tick by tick: register with ttl T, then T+7 ticks with a read after each
+    me = A('10.0.1.2')
+    for T in ([0, 1, 2, 5, 30] if tier != 'thorough' else [0, 1, 2, 3, 5, 10, 30, 60, 300]):
+        evs = [('conf', A('10.0.9.40'), me, (5, T))]
+        for _ in range(T + 7):
+            evs += [('tick',), ('conf', A('10.0.1.90'), me, (6,))]
+        out.append(hist_case((me, [], [], True), evs, 'fdt-window'))
+    return out
+
+
+def interleave(groups):
+    """spread the expensive cases evenly over the in-kernel shards"""
+    groups = [list(g) for g in groups if g]
+    total = sum(len(g) for g in groups)
+    out, pos = [], [0] * len(groups)
+    for k in range(total):
+        # pick the group that is most behind its quota
+        j = max(range(len(groups)), key=lambda j: (len(groups[j]) * (k + 1) / total) - pos[j] if pos[j] < len(groups[j]) else -1e9)
+        out.append(groups[j][pos[j]])
+        pos[j] += 1
+    return out
+
+
+def cases(rng, tier):
+    return interleave([node_cases(rng, tier), hist_cases(rng, tier), net_cases(rng, tier)])
+
+
+# ------------------------------------------------------------------ direct, implementation-only predicate
+class Book:
+    """Runs a script on the real classes and keeps the facts the property talks about, taken from the
+    datagrams seen on the LANs: when each foreign device's registration last reached its BBMD (and with
+    which TTL), when it unregistered, when its entry was deleted.  From them the *weakest* verdict per
+    device and instant: 'served' (must get broadcasts, must be listed), 'grace' (either), 'out' (must not)."""
+    GRACE = 30000
+
+    def __init__(self, layout):
+        self.layout = layout
+        self.net = Net(layout)
+        self.nodes = layout['nodes']
+        self.addr2node = {(n['ip'], PORT): i for i, n in enumerate(self.nodes)}
+        self.lan_has_bbmd = [any(n['kind'] == 'bbmd' and n['lan'] == k for n in self.nodes) for k in range(len(layout['lans']))]
+        self.f = {i: {'last': None, 'bbmd': None, 'link': True, 'continuous': False} for i in idx(layout, 'foreign')}
+        self.failures = []
+        self.full = layout.get('style') != 'partial' and layout.get('wf', True)
+        self.t_last = 0
+        self.trace = []
+
+    def fail(self, kind, **kw):
+        d = {'kind': kind, 'layout': self.layout, 'script': list(self.trace)}
+        d.update(kw)
+        self.failures.append(d)
+
+    def step(self, t, ev):
+        self.trace.append((t, ev))
+        if ev[0] == 'link':
+            st = self.f.get(ev[1])
+            if st is not None:
+                st['link'] = bool(ev[2])
+                if not ev[2]:
+                    st['continuous'] = False
+        recs = self.net.step(t, ev)
+        for ft, r in self.net.frame_times:
+            if r[6] == 5 or r[6] == 8:
+                src, dst = (r[2], r[3]), (r[4], r[5])
+                bi = self.addr2node.get(dst)
+                if bi is None or self.nodes[bi]['kind'] != 'bbmd' or self.nodes[bi]['lan'] != r[1]:
+                    continue
+                if r[6] == 5:
+                    fi = self.addr2node.get(src)
+                    if fi in self.f:
+                        self.f[fi]['last'] = ('reg', ft, r[7]) if r[7] > 0 else ('unreg', ft, 0)
+                        self.f[fi]['bbmd'] = bi
+                else:
+                    fi = self.addr2node.get((r[7], r[8]))
+                    if fi in self.f and self.f[fi]['bbmd'] == bi and self.f[fi]['last'] is not None:
+                        self.f[fi]['last'] = ('deleted', ft, 0)
+                        self.f[fi]['continuous'] = False
+        if ev[0] == 'register' and self.f[ev[1]]['link']:
+            self.f[ev[1]]['continuous'] = True
+        if ev[0] == 'unregister':
+            self.f[ev[1]]['continuous'] = False
+        return recs
+
+    def state(self, fi, t):
+        st = self.f[fi]
+        if st['last'] is None:
+            return 'out'
+        kind, t0, ttl = st['last']
+        if kind == 'deleted':
+            return 'out'
+        if kind == 'unreg':
+            return 'grace' if t <= t0 + self.GRACE else 'out'
+        if st['continuous'] and st['link']:
+            return 'served'        # an undisturbed device has to keep itself registered
+        if t <= t0 + ttl * 1000:
+            return 'served' if st['link'] else 'grace'
+        return 'grace' if t <= t0 + ttl * 1000 + self.GRACE else 'out'
+
+    def broadcast(self, t, o, pid):
+        """node o broadcasts at t; evaluate exactly-once / no echo / true source / served window"""
+        nodes = self.nodes
+        self.step(t, ('none',))       # let the clock reach t first (renewals on the way update the bookkeeping)
+        before = {fi: self.state(fi, t) for fi in self.f}
+        recs = self.step(t, ('bcast', o, pid))
+        got = {}
+        for r in recs:
+            if r[0] == 1 and r[2] == 1 and r[-1] == pid:
+                got.setdefault(r[1], []).append(r)
+        oaddr = (nodes[o]['ip'], PORT)
+        for ni, rs in got.items():
+            if ni == o:
+                self.fail('echo-to-originator', origin=o, payload=pid)
+            if len(rs) > 1:
+                self.fail('duplicate-delivery', origin=o, node=ni, copies=len(rs), payload=pid)
+            for r in rs:
+                if (r[3], r[4]) != oaddr:
+                    self.fail('wrong-source', origin=o, node=ni, shown=[r[3], r[4]], payload=pid)
+                if r[5:8] != [0, 0, 0]:
+                    self.fail('not-a-broadcast-upstream', origin=o, node=ni, payload=pid)
+        if not self.full:
+            return got
+        ok = nodes[o]
+        if ok['kind'] == 'foreign':
+            ost = before[o] if self.f[o]['link'] else 'down'
+            reach = ost == 'served'
+            if ost == 'out' and got:
+                self.fail('distributed-for-unlisted-device', origin=o, payload=pid, receivers=sorted(got))
+        else:
+            reach = self.lan_has_bbmd[ok['lan']]
+        for ni, nd in enumerate(nodes):
+            if ni == o or nd['kind'] == 'probe':
+                continue
+            c = len(got.get(ni, []))
+            if nd['kind'] == 'foreign':
+                fs = before[ni]
+                if fs == 'out' and c and ok['kind'] != 'foreign':
+                    self.fail('served-after-expiry', origin=o, node=ni, payload=pid, at_ms=t, last=self.f[ni]['last'])
+                if fs == 'served' and reach and c == 0:
+                    self.fail('served-device-missed', origin=o, node=ni, payload=pid, at_ms=t, last=self.f[ni]['last'])
+            elif self.lan_has_bbmd[nd['lan']]:
+                if reach and c == 0:
+                    self.fail('node-missed', origin=o, node=ni, payload=pid, at_ms=t)
+            elif nd['lan'] == ok['lan'] and ok['kind'] == 'simple' and nd['kind'] == 'simple' and c == 0:
+                self.fail('node-missed', origin=o, node=ni, payload=pid, at_ms=t)
+        return got
+
+    def read_tables(self, t, probe, bi):
+        """Read-Foreign-Device-Table from a probe; compare the listing with the bookkeeping"""
+        b = self.nodes[bi]
+        self.step(t, ('none',))
+        states = {fi: self.state(fi, t) for fi in self.f}
+        recs = self.step(t, ('inject', probe, (b['ip'], PORT), (6,)))
+        acks = [r for r in recs if r[0] == 2 and r[6] == 7 and (r[2], r[3]) == (b['ip'], PORT)]
+        if not acks:
+            self.fail('no-read-fdt-ack', bbmd=bi, at_ms=t)
+            return None
+        r = acks[0]
+        rows = [tuple(r[8 + 4 * k: 12 + 4 * k]) for k in range(r[7])]
+        listed = [(ip, port) for ip, port, ttl, rem in rows]
+        if len(set(listed)) != len(listed):
+            self.fail('fdt-duplicate-entry', bbmd=bi, rows=rows, at_ms=t)
+        for fi, st in self.f.items():
+            if st['bbmd'] != bi:
+                continue
+            a = (self.nodes[fi]['ip'], PORT)
+            if states[fi] == 'served' and a not in listed:
+                self.fail('served-device-not-listed', node=fi, bbmd=bi, at_ms=t, last=st['last'], rows=rows)
+            if states[fi] == 'out' and a in listed:
+                self.fail('listed-after-expiry', node=fi, bbmd=bi, at_ms=t, last=st['last'], rows=rows)
+        return rows
+
+
+def first_probe(layout, lan=None):
+    ps = [i for i in idx(layout, 'probe') if lan is None or layout['nodes'][i]['lan'] == lan]
+    return ps[0]
+
+
+def scen_sweep(rng, layout, stats):
+    """every node broadcasts, devices registered; then again at random later instants"""
+    bk = Book(layout)
+    T = Times(rng)
+    nodes = layout['nodes']
+    bbmds, fors = idx(layout, 'bbmd'), idx(layout, 'foreign')
+    senders = [i for i, n in enumerate(nodes) if n['kind'] != 'probe']
+    pid = 0x2000
+    home = {}
+    if bbmds:
+        for f in fors:
+            home[f] = rng.choice(bbmds)
+            bk.step(T.after(rng.choice([0, 500])), ('register', f, (nodes[home[f]]['ip'], PORT), rng.choice(TTLS)))
+    for rnd in range(2):
+        order = list(senders)
+        rng.shuffle(order)
+        for o in order:
+            pid += 1
+            bk.broadcast(T.after(rng.choice([0, 100, 1000, 4000] if rnd == 0 else [0, 3000, 20000, 61000])), o, payload_id(pid.to_bytes(2, 'big')))
+            stats['broadcasts'] += 1
+        for b in bbmds:
+            bk.read_tables(T.after(0), first_probe(layout), b)
+    return bk.failures
+
+
+def scen_lifecycle(rng, layout, stats):
+    """registrations, link cuts (expiry), unregistration, re-registration, deletion; broadcasts and table reads at
+    random instants and just inside / outside each window"""
+    bk = Book(layout)
+    T = Times(rng)
+    nodes = layout['nodes']
+    bbmds, fors = idx(layout, 'bbmd'), idx(layout, 'foreign')
+    senders = [i for i, n in enumerate(nodes) if n['kind'] != 'probe']
+    if not bbmds or not fors:
+        return []
+    pid = [0x3000]
+    home = {f: rng.choice(bbmds) for f in fors}
+    ttl = {}
+
+    def sample(gap):
+        pid[0] += 1
+        o = rng.choice(senders)
+        bk.broadcast(T.after(gap), o, payload_id(pid[0].to_bytes(2, 'big')))
+        stats['broadcasts'] += 1
+        bk.read_tables(T.after(0), first_probe(layout), home[rng.choice(fors)])
+    for f in fors:
+        ttl[f] = rng.choice(TTLS)
+        bk.step(T.after(rng.choice([0, 700])), ('register', f, (nodes[home[f]]['ip'], PORT), ttl[f]))
+    for _ in range(rng.randrange(4, 10)):
+        f = rng.choice(fors)
+        r = rng.random()
+        sample(rng.choice([0, 900, 5000]))
+        if r < 0.35:      # pull the cable, watch the window close
+            bk.step(T.after(rng.choice([0, 1500, 1000 * ttl[f]])), ('link', f, False))
+            last = bk.f[f]['last']
+            if last and last[0] == 'reg':
+                t_end = last[1] + last[2] * 1000
+                if T.t <= t_end - 2100:
+                    T.t = t_end - 2100
+                    sample(0)                       # still inside the TTL: must be served
+                T.t = max(T.t, t_end + Book.GRACE)
+                sample(1000)                        # past TTL + grace: must be out
+            if rng.random() < 0.7:
+                bk.step(T.after(500), ('link', f, True))
+                sample(1000 * ttl[f] + 1000)        # it renews by itself once the cable is back
+        elif r < 0.55 and bk.net.nodes[f]['bip'].bbmdAddress is not None:
+            bk.step(T.after(300), ('unregister', f))
+            sample(100)
+            sample(Book.GRACE + 1000)
+            if rng.random() < 0.7:
+                ttl[f] = rng.choice(TTLS)
+                bk.step(T.after(200), ('register', f, (nodes[home[f]]['ip'], PORT), ttl[f]))
+                sample(300)
+        elif r < 0.75:
+            bk.step(T.after(300), ('inject', first_probe(layout), (nodes[home[f]]['ip'], PORT), (8, nodes[f]['ip'], PORT)))
+            # "stops at once": sample right away, from a node other than the device itself
+            pid[0] += 1
+            others = [s for s in senders if s != f]
+            if others:
+                bk.broadcast(T.after(0), rng.choice(others), payload_id(pid[0].to_bytes(2, 'big')))
+            bk.read_tables(T.after(0), first_probe(layout), home[f])
+        else:
+            sample(rng.choice([1000 * ttl[f], 1000 * (ttl[f] + 6), 2500 * ttl[f]]))
+    return bk.failures
+
+
+def scen_renewal(rng, stats, ttl):
+    """an undisturbed device stays listed: the table is read twice a second for three periods"""
+    layout = {'lans': [(ip_int('10.1.1.0'), 24), (ip_int('10.200.0.0'), 24)], 'style': 'two-hop', 'wf': True,
+              'nodes': [{'lan': 0, 'ip': ip_int('10.1.1.2'), 'kind': 'bbmd', 'bdt': [(ip_int('10.1.1.2'), PORT, M32)]},
+                        {'lan': 0, 'ip': ip_int('10.1.1.10'), 'kind': 'simple'},
+                        {'lan': 1, 'ip': ip_int('10.200.0.40'), 'kind': 'foreign'},
+                        {'lan': 0, 'ip': ip_int('10.1.1.90'), 'kind': 'probe'}]}
+    bk = Book(layout)
+    t0 = rng.randrange(100, 900)
+    bk.step(t0, ('register', 2, (ip_int('10.1.1.2'), PORT), ttl))
+    horizon = t0 + (3 * ttl + 45) * 1000
+    t = t0 - (t0 % 1000)
+    k = 0
+    while t < horizon:
+        t += 1000
+        for r in (rng.randrange(1, 40), rng.randrange(960, 999)):
+            bk.read_tables(t + r, 3, 0)
+            k += 1
+        if k % 14 == 0:
+            bk.broadcast(t + 999, 1, payload_id((0x4000 + k).to_bytes(2, 'big')))
+            stats['broadcasts'] += 1
+    return bk.failures
+
+
+def scen_unlisted(rng, stats):
+    """a device the BBMD does not list hands it a Distribute-Broadcast-To-Network"""
+    layout = {'lans': [(ip_int('10.1.1.0'), 24), (ip_int('10.200.0.0'), 24)], 'style': 'two-hop', 'wf': True,
+              'nodes': [{'lan': 0, 'ip': ip_int('10.1.1.2'), 'kind': 'bbmd', 'bdt': [(ip_int('10.1.1.2'), PORT, M32)]},
+                        {'lan': 0, 'ip': ip_int('10.1.1.10'), 'kind': 'simple'},
+                        {'lan': 1, 'ip': ip_int('10.200.0.40'), 'kind': 'foreign'},
+                        {'lan': 1, 'ip': ip_int('10.200.0.90'), 'kind': 'probe'}]}
+    bk = Book(layout)
+    pid = payload_id(b'\x50\x01')
+    recs = bk.step(rng.randrange(100, 900), ('inject', 3, (ip_int('10.1.1.2'), PORT), (9, pid)))
+    got = [r for r in recs if r[0] == 1 and r[2] == 1 and r[-1] == pid]
+    if got:
+        bk.fail('distribute-accepted-from-unlisted', receivers=sorted(r[1] for r in got), source='never registered')
+    return bk.failures
+
+
+def direct(rng, tier, focus=()):
+    import collections
+    stats = collections.Counter()
+    failures = []
+    nontriv = 0
+    big = tier == 'thorough'
+    for k in range(400 if big else 60):
+        layout = gen_layout(rng, wf=True)
+        if layout['style'] == 'mixed':
+            consistent_mixed(layout, rng)
+        fs = scen_sweep(rng, layout, stats)
+        failures += fs
+        stats['layouts'] += 1
+        stats['style-' + layout['style']] += 1
+    for k in range(100 if big else 15):     # partial tables: no duplicates, no echo, true source only
+        layout = gen_layout(rng, wf=True, partial=True)
+        failures += scen_sweep(rng, layout, stats)
+        stats['layouts-partial'] += 1
+    for k in range(300 if big else 50):
+        layout = gen_layout(rng, wf=True, max_sub=3)
+        if layout['style'] == 'mixed':
+            consistent_mixed(layout, rng)
+        failures += scen_lifecycle(rng, layout, stats)
+        stats['lifecycles'] += 1
+    for ttl in ([1, 2, 3, 5, 10, 30, 60] if big else [1, 2, 5, 30]):
+        failures += scen_renewal(rng, stats, ttl)
+        stats['renewal-runs'] += 1
+    failures += scen_unlisted(rng, stats)
+    for d in focus:
+        if isinstance(d, dict) and d.get('layer') == 'net' and d['layout'].get('wf'):
+            failures += scen_sweep(rng, d['layout'], stats)
+    ev = stats['broadcasts'] + stats['renewal-runs']
+    return failures, {'evaluations': ev, 'distinct_nontrivial': stats['broadcasts'], 'exhaustive': False,
+                      'histogram': dict(stats),
+                      'samples': [{'direct': 'broadcast sweep / lifecycle / renewal / unlisted-distribute scenarios on vlan.IPNetwork+IPRouter',
+                                   'counts': dict(stats)}]}
+
+
+def classify(failure):
+    k = failure.get('kind')
+    if k == 'distribute-accepted-from-unlisted':
+        return 'C13-K1'
+    if k == 'distributed-for-unlisted-device':
+        # the device's entry was deleted / had expired at the BBMD while the device itself still believed it was registered
+        return 'C13-K1'
+    return None
+
+
+def replay(payload):
+    f = payload.get('failure') or {}
+    if not f:
+        b = payload.get('broken', [{}])
+        f = (b[0].get('minimal_case', {}) or {}).get('desc', {}) if b and isinstance(b[0], dict) else {}
+    print('replay', json.dumps(f, default=str)[:2000])
+    if f.get('layer') == 'node':
+        st = f['state']
+        print('implementation:', run_node(f['kind'], tuple(map(_tup, st)) if isinstance(st, list) else st, _tup(f['event']), f.get('now_ms', 0)))
+    elif 'layout' in f and 'script' in f:
+        script = [(_t, _tup(e)) for _t, e in f['script']]
+        print('implementation (full observation lists):', run_net(f['layout'], script, full=True)[:4000])
+        import core
+        got, err = core.coq_eval(COQ_IMPORTS, 'canon_run_full %s %s' % (coq_world(f['layout']), coq_script(script)))
+        print('model:', (got or err)[:4000])
+
+
+def _tup(x):
+    if isinstance(x, list):
+        return tuple(_tup(y) for y in x)
+    return x
